@@ -385,6 +385,11 @@ def check_case(case, ctx):
             ctx.fail("data-sent-differs-from-fresh-model",
                      "round %d sent (constraints, LMIs, LMI entries) = %r, a newly built equivalent model sends %r"
                      % (r, out["size"], data_size(ob2)))
+        if (ob2.result is None) != (out["result"] is None) and (out.get("init_dropped") or opts.get("solver") == "SCS" and opts.get("drh")):
+            # without its initial condition the model is bounded by the generic caps only (optimal values around 1e5): whether
+            # a first-order solver ends 'optimal' or 'unbounded' there is not reproducible between two runs
+            ctx.label("inconclusive:finite-vs-none-on-a-numerically-unbounded-model")
+            continue
         if (ob2.result is None) != (out["result"] is None):
             ctx.fail("finite-vs-none-differs-from-fresh-model", "round %d returned %r, a newly built equivalent model %r"
                      % (r, out["result"], ob2.result))
